@@ -134,7 +134,8 @@ class Repeat(addons.AddonMainTask, block.SBlock):
 
             if repeat > 0:  # skip the original event
                 self.set_output(repeat)
-                self._repeated_event.send(self, **data, repeat=repeat)
+                # the data may contain a 'repeat' item from a preceding Repeat block
+                self._repeated_event.send(self, **{**data, 'repeat': repeat})
             repeating = self._count is None or repeat < self._count
 
     def _event(self, etype: str|block.EventType, data) -> None:
@@ -148,7 +149,8 @@ class Repeat(addons.AddonMainTask, block.SBlock):
         # not to conceal a possible forbidden loop
         data['orig_source'] = data.get('source')
         self.set_output(0)
-        self._repeated_event.send(self, **data, repeat=0)
+        # the data may contain a 'repeat' item from a preceding Repeat block
+        self._repeated_event.send(self, **{**data, 'repeat': 0})
         self._queue.put_nowait(data)
 
     def start(self) -> None:
